@@ -103,7 +103,7 @@ ADD = {
  'C20': ' Thirteen bodies since the third session: escape/unescape, the four filename conversions and a wchar_t parse+normalize+resolve+toString chain were added.',
 }
 ADD4 = {   # fourth session
- 'C01': ' Octets 0..300 and all 22 hex digits are swept in every position; dotted texts of one to five parts end the text or are followed by port / path / query.',
+ 'C01': ' Octets 0..300 and all 22 hex digits are swept in every position; dotted texts of one to five parts end the text or are followed by port / path / query; user information that reads like host:port or like an IPv4 address stands in front of every host kind.',
  'C02': ' Octet / hex-digit sweeps and the dotted family as in C01.',
  'C03': ' Dotted texts of one to five parts end exactly at the inaccessible page; every reported range must be a pair (both ends set or none, in order).',
  'C04': ' Octet / hex-digit sweeps and the dotted family as in C01.',
@@ -112,15 +112,15 @@ ADD4 = {   # fourth session
  'C08': ' All 256 triplets x 3 hex spellings and every printable character raw in every component where the grammar allows it (case folding touches letters only).',
  'C09': ' References with an authority (the authority product of C06 plus spellings that normalisation changes) and colon segments behind dot segments.',
  'C10': ' Schemes differing in case only or extending one another; one object passed as source and as base; bases whose last directory is a dot segment.',
- 'C11': ' The parse of every produced text that no seed spells joins the compared objects (a produced object always meets the URI read from its own text).',
+ 'C11': ' The parse of every produced text that no seed spells joins the compared objects (a produced object always meets the URI read from its own text); 21 IPv6 literals (several spellings of five addresses and their neighbours) in the family.',
  'C12': ' Shapes whose normal form needs an added "." segment (that text must be the URI\'s own).',
  'C13': ' OUT parameters hold 0x5A garbage on entry; the 31 incomplete managers also meet owner URIs (14 calls each).',
  'C14': ' OUT parameters hold 0x5A garbage on entry; the single-failure sets also run on the manager completed from a malloc/free-only backend (failures reach the library\'s calloc / realloc emulation), whose entry points are also called directly.',
  'C15': ' Plus the giant family: all call sequences up to length 3 over 8 sizes and 4 nmemb/size pairs around 2^32 on a backend that hands out address space only (contents checked on sparse offsets; growing an already giant block is left out).',
- 'C16': ' Every %XY with X, Y among the 22 hex digits and their six code-table neighbours; triplets in front of long plain runs; wide code points above 255 are escaped as well (known finding, output alphabet still demanded).',
- 'C17': ' Every composed text and splitter string is also dissected without an item counter; long keys / values around the powers of two; a real buffer of INT_MAX characters for a list that does not fit; wide code points above 255 (known finding).',
+ 'C16': ' Every %XY with X, Y among the 22 hex digits and their six code-table neighbours; triplets in front of long plain runs; an output area that starts where the input range ends; wide code points above 255 are escaped as well (known finding, output alphabet still demanded).',
+ 'C17': ' Every composed text and splitter string is also dissected without an item counter; long keys / values around the powers of two; a real buffer of INT_MAX characters for a list that does not fit; lists whose worst-case figure is INT_MAX+1+f*d (d in -2..2); a wide key of INT_MAX/24+1 characters through a recording, refusing manager; wide code points above 255 (known finding).',
  'C18': ' Every byte as drive letter; wide code points above 255 (known finding, sizes and validity still demanded).',
- 'C19': ' One path segment of 2^29+7 characters parsed and made owner in both APIs; query keys of INT_MAX/24+1 .. INT_MAX/6 characters sized in both APIs; long query texts; every normalisation repeated through a ledger manager.',
+ 'C19': ' One path segment of 2^29+7 characters parsed and made owner in both APIs; query keys of INT_MAX/24+1 .. INT_MAX/6 characters sized in both APIs; long query texts; every byte value through escape and the filename functions; the allocating composer through a recording manager (request counted in characters); every normalisation repeated through a ledger manager.',
 }
 for k, v in ADD4.items(): ADD[k] = ADD.get(k, '') + v
 NOT_YET = {}
